@@ -26,7 +26,7 @@ void one_case(Ctx &c) {
   CHECK(c, s.init_err == CO_ERR_NONE, "harness", "node initialisation reported error %d", s.init_err);
   SdoClient cl(s, w.req[0], w.rsp[0]);
   VLOG(c, "%d consumer entries", nen);
-  int mode = 2; int writes_after_start = 0; bool monitoring_started = false; int maxactive = 0; bool saturated = false;
+  int mode = 2; int resets = 0; int writes_after_start = 0; bool monitoring_started = false; int maxactive = 0; bool saturated = false;
   auto tick = [&]() {
     s.clear_ev(); s.step_tick(); long T = s.tick;
     std::vector<int> exp;
@@ -101,7 +101,14 @@ void one_case(Ctx &c) {
       VLOG(c, "run %ld ticks (about %d expiries of entry %d)", n, k, best + 1);
       for (long i = 0; i < n; i++) tick();
     } else if (op == 7) { // NMT state change: consumption continues in PRE-OP, OPERATIONAL and STOPPED
-      uint32_t m = c.t.below(3); s.rx(Frame::mk(0, 2, {(uint8_t)(m == 0 ? 1 : m == 1 ? 128 : 2), 0})); mode = m == 0 ? 3 : m == 1 ? 2 : 4; VLOG(c, "NMT -> mode %d", mode);
+      uint32_t m = c.t.below(5);
+      if (m < 3) { s.rx(Frame::mk(0, 2, {(uint8_t)(m == 0 ? 1 : m == 1 ? 128 : 2), 0})); mode = m == 0 ? 3 : m == 1 ? 2 : 4; VLOG(c, "NMT -> mode %d", mode); }
+      else {   // NMT reset communication / node: every configured entry is activated afresh - monitoring starts again with the first heartbeat, counters and last states are cleared,
+               // and nothing of the earlier monitoring (a running supervision time) may survive
+        s.rx(Frame::mk(0, 2, {(uint8_t)(m == 3 ? 130 : 129), 0})); mode = 2; resets++;
+        for (auto &x : me) { x.active = x.time > 0; x.due = -1; x.events = 0; x.state = 0; }
+        VLOG(c, "NMT reset %s at tick %ld", m == 3 ? "communication" : "node", s.tick);
+      }
     } else {              // read an entry back through SDO
       if (mode == 4) continue;
       int i = (int)c.t.below(nen); uint32_t v = 0; uint32_t code = cl.read(0x1016, (uint8_t)(1 + i), &v);
@@ -116,6 +123,7 @@ void one_case(Ctx &c) {
   if (maxactive >= 2) c.cls("two-or-more-active-entries");
   if (writes_after_start) c.cls("write-after-monitoring-started");
   if (saturated) c.cls("counter-saturated-at-255");
+  if (resets) c.cls("nmt-reset-in-history");
 }
 
 Registrar reg(Prop{
